@@ -40,9 +40,9 @@ def grd5(P, R, L):
     other = lambda pred: (lambda os: not pred(os))
     e_wal_lt, e_wal_ne, e_man_lt = [], [], []
     for c in cmps:
-        e_wal_lt += c.edges_where("lt", other(is_curr), is_curr)
-        e_wal_ne += c.edges_where("ne", other(is_prev), is_prev)
-        e_man_lt += c.edges_where("lt", other(is_man), is_man)
+        e_wal_lt += c.edges_where("lt", other(is_curr), is_curr, exact=True)
+        e_wal_ne += c.edges_where("ne", other(is_prev), is_prev, exact=True)
+        e_man_lt += c.edges_where("lt", other(is_man), is_man, exact=True)
     # the None arm of `match maybe_prev_wal_number()` also establishes "not the previous WAL"
     for bb in range(b.n):
         for st in b.blocks[bb]["stmts"]:
